@@ -80,3 +80,80 @@ def standard(ctx, n, parts=('status', 'items', 'recs', 'notes', 'json'), terrapi
 def sev_mix(rec):
     lv = sorted({l for a in rec['ptext']['algs'] for (l, t) in a['notes']})
     return '+'.join(lv)
+
+
+# ---- the same report family through the real command line over TCP (both roles) ----
+import random as _random
+import socket as _socket
+import threading as _threading
+
+_PORT_LOCK = _threading.Lock()
+_PORT_RNG = _random.Random(424242)
+
+
+def _free_port():
+    for _ in range(50):
+        p = _PORT_RNG.randrange(20000, 60000)
+        s = _socket.socket()
+        try:
+            s.bind(('0.0.0.0', p))
+            s.close()
+            return p
+        except OSError:
+            s.close()
+    raise RuntimeError('no free port')
+
+
+def cli_records(ctx, peers, parts=('status', 'items', 'recs', 'notes', 'json'), name='report-cli', opts_text=()):   # colours on: the recommendation level is only visible as a colour
+    """Audit the given peers with the real wrapper over TCP - as a server (scripted server) or, for client_audit peers, with -c against a
+    scripted client - once for the text report and once for -j.  No host key or group-exchange modulus is served, so the returned records
+    carry peers without measured attributes.  Runs the model correspondence on what was printed and returns records shaped like standard()'s."""
+    import peers as P
+    import runner
+    cases = []
+    for p in peers:
+        q = {k: v for k, v in p.items() if k not in ('hostkeys', 'dh', 'rate_notes')}
+        q['hostkeys'], q['dh'] = {}, {}
+        q['banner'] = q.get('banner') or 'SSH-2.0-OpenSSH_8.0'
+        cases.append(q)
+
+    def one(z, q, opts):
+        payload = P.kexinit(q['kex'], q['key'], q['enc'], q['mac'], q.get('comp', ['none']), enc_c=q.get('enc_c'), mac_c=q.get('mac_c'))
+        if not q.get('client_audit'):
+            srv = P.new_ssh2_server(dict(banner=q['banner'].encode(), kexinit_override=payload, kex=[], key=[], enc=[], mac=[], hostkeys={}))
+            try:
+                return z.run(list(opts) + ['--skip-rate-test', '-t', '2', '127.0.0.1:%d' % srv.port], timeout=90)
+            finally:
+                srv.shutdown()
+        res = None
+        for _ in range(4):
+            with _PORT_LOCK:
+                port = _free_port()
+            th = _threading.Thread(target=lambda: P.scripted_client(port, q['banner'].encode(), payload), daemon=True)
+            th.start()
+            res = z.run(list(opts) + ['-c', '-p', str(port), '-t', '5'], timeout=90)
+            th.join(timeout=5)
+            if 'failed to listen' not in res['err'] and 'Timeout elapsed' not in res['out']:
+                break
+        return res
+
+    def do(z, q):
+        return one(z, q, opts_text), one(z, q, ['-j'])
+    with runner.Pool(8) as pool:
+        outs = pool.map(do, cases)
+    recs = []
+    for q, (t, j) in zip(cases, outs):
+        desc = {'op': 'cli-report', 'role': 'client' if q.get('client_audit') else 'server', 'peer': jsonable_peer(q)}
+        if t['rc'] not in (0, 2, 3) or j['rc'] != t['rc']:
+            ctx.violation('cli-report/status/%s' % desc['role'], 'text run exits %r, -j run exits %r for a well-formed %s peer: %s' % (t['rc'], j['rc'], desc['role'], (t['out'] + t['err'] + j['err'])[-300:]), desc)
+            continue
+        try:
+            rec = {'peer': q, 'via': 'cli', 'text': {'ret': t['rc'], 'text': t['out'], 'exc': None}, 'json': {'ret': j['rc'], 'text': j['out'], 'exc': None},
+                   'ptext': canon.parse_text(t['out']), 'pjson': canon.load_json(j['out'])}
+        except canon.CanonError as e:
+            ctx.violation('cli-report/unparsable/%s' % desc['role'], str(e), desc)
+            continue
+        recs.append(rec)
+    terms = [terms_for(r, parts) for r in recs]
+    ctx.correspond(name, IMPORTS, '', terms, lambda i: {'op': 'cli-report', 'role': 'client' if recs[i]['peer'].get('client_audit') else 'server', 'peer': jsonable_peer(recs[i]['peer']), 'text': recs[i]['text']['text'][:1500]})
+    return recs
